@@ -1046,6 +1046,10 @@ func (in *Interp) store(pv Value, v Value) {
 	if in.Ghost["ctrace"] != nil {
 		in.traceAccess("W", p)
 	}
+	if w, _ := in.Ghost["watch.obj"].(*Object); w != nil && w == p.Obj {
+		l, _ := in.Ghost["watch.writes"].([][]int)
+		in.Ghost["watch.writes"] = append(l, append([]int{}, p.Path...))
+	}
 	p.Obj.V = setPath(p.Obj.V, p.Path, v)
 }
 
